@@ -445,9 +445,29 @@ func ruleDecodeHeader(p *Prog, r *Report) {
 	in.PathBind["p0.pos"] = int64Val(4)
 	in.PathBind["p0.input[8]"] = int64Val(0)
 	var dataArgs, ctlArgs []Val
+	var u16 *Val
+	// bytes of a slice as terms, whether it is a window of the input or a private copy
+	bytesOf := func(v Val) []string {
+		if v.K != KSlice || v.Len < 0 {
+			return nil
+		}
+		var out []string
+		for i := 0; i < v.Len; i++ {
+			if strings.Contains(v.S, "#") {
+				out = append(out, in.Elem(v, i, typByte).String())
+			} else {
+				out = append(out, fmt.Sprintf("%s[%d]", v.S, v.Off+i))
+			}
+		}
+		return out
+	}
 	in.OnCall = func(call *ssa.Call, callee *ssa.Function, a []Val, fr *frame) {
 		if fr.fn != fn {
 			return
+		}
+		if callee.Name() == "Uint16" && len(a) > 0 {
+			v := a[len(a)-1]
+			u16 = &v
 		}
 		switch callee.Name() {
 		case "NewHSMSDataMessage":
@@ -467,7 +487,7 @@ func ruleDecodeHeader(p *Prog, r *Report) {
 			{"waitBit", `^int\(\(p0\.input\[6\]>>7\)\)$`},
 			{"direction", `^"H<->E"$`},
 			{"dataItem", ``},
-			{"sessionID", `^int\(Uint16\(p0\.input\[4:6\]\)\)$`},
+			{"sessionID", `^int\(Uint16\(.*\)\)$`},
 		}
 		for i, w := range want {
 			if w.re == "" {
@@ -481,8 +501,17 @@ func ruleDecodeHeader(p *Prog, r *Report) {
 				r.bad(rule, key, pos, fmt.Sprintf("%s handed to NewHSMSDataMessage is %q; E37 puts it at %s", w.name, dataArgs[i].String(), w.re))
 			}
 		}
+		if u16 == nil || strings.Join(bytesOf(*u16), ",") != "p0.input[4],p0.input[5]" {
+			got := "?"
+			if u16 != nil {
+				got = strings.Join(bytesOf(*u16), ",")
+			}
+			r.bad(rule, rule+":data:sessionID-bytes", pos, "the session id is read big-endian from ("+got+"), E37 puts it at header bytes 0-1 (input[4], input[5])")
+		} else {
+			r.ok(rule, rule+":data:sessionID-bytes", pos, "the session id is read big-endian from input[4], input[5]")
+		}
 		sb := dataArgs[7]
-		if sb.K == KSlice && sb.S == "p0.input" && sb.Off == 10 && sb.Len == 4 {
+		if strings.Join(bytesOf(sb), ",") == "p0.input[10],p0.input[11],p0.input[12],p0.input[13]" {
 			r.ok(rule, rule+":data:systemBytes", pos, "system bytes = input[10:14]")
 		} else {
 			r.bad(rule, rule+":data:systemBytes", pos, "system bytes handed to NewHSMSDataMessage are "+sb.String()+", E37 puts them at header bytes 6-9 (input[10:14])")
@@ -492,6 +521,23 @@ func ruleDecodeHeader(p *Prog, r *Report) {
 		r.unk(rule, rule+":control", pos, "call of ast.NewHSMSControlMessage not found in parseMessage")
 	} else if h := ctlArgs[0]; h.K == KSlice && h.S == "p0.input" && h.Off == 4 && h.Len == 10 {
 		r.ok(rule, rule+":control:header", pos, "the control message is built from input[4:14], the 10 header bytes")
+	} else if h := ctlArgs[0]; h.K == KSlice && strings.Contains(h.S, "#") && h.Len == 10 {
+		// a private copy is fine as long as every byte is the header byte itself
+		var probs []string
+		for i := 0; i < 10; i++ {
+			e := in.Elem(h, i, typByte)
+			if i == 4 && e.String() == "0" {
+				continue // the query fixes PType (header byte 4) to 0 to reach this branch
+			}
+			if e.String() != fmt.Sprintf("p0.input[%d]", 4+i) {
+				probs = append(probs, fmt.Sprintf("byte %d of the buffer handed to NewHSMSControlMessage is %s, not header byte %d", i, e, i))
+			}
+		}
+		if len(probs) == 0 {
+			r.ok(rule, rule+":control:header", pos, "the control message is built from an unmodified copy of the 10 header bytes")
+		} else {
+			r.bad(rule, rule+":control:header", pos, strings.Join(firstN(probs, 3), "; "))
+		}
 	} else {
 		r.bad(rule, rule+":control:header", pos, "the control message is built from "+ctlArgs[0].String()+" instead of the 10 header bytes input[4:14]")
 	}
